@@ -50,7 +50,7 @@ def siblings(chk, F):
     n = 0
     for name in ("get", "to_reply", "get_in_unit"):
         # (private helpers the arithmetic has been moved into are put back: one copy per call, with that call's operands)
-        fn = F.find(CORE, SUB + name, inline=True, keep=("Option::<T>", "Iterator", "bool::then", "conformance_err"))
+        fn = F.find(CORE, SUB + name, inline=True, keep=("Option::<T>", "Iterator", "bool>::then", "conformance_err"))
         for g in [fn] + F.closures_of(fn):
             ts = role_trees(g)
             if not ts:
@@ -119,7 +119,7 @@ def name_pairs(F, g):
 
 
 def get_gates(chk, F):
-    fn = F.find(CORE, SUB + "get", inline=True, keep=("Option::<T>", "Iterator", "bool::then", "conformance_err"))
+    fn = F.find(CORE, SUB + "get", inline=True, keep=("Option::<T>", "Iterator", "bool>::then", "conformance_err"))
     fk = "rink_core::" + SUB + "get"
     # Ok(res) returns in the dimensioned branch
     oks = []
